@@ -529,7 +529,7 @@ func drive(id, tier string) int {
 	if cfg.Workers < 1 {
 		cfg.Workers = 1
 	}
-	evPath := filepath.Join(Root, "evidence", id+".json")
+	evPath := filepath.Join(evidenceDir(), id+".json")
 	os.Remove(evPath)
 	if p, ok := c.(Preparer); ok {
 		if err := p.Prepare(tier); err != nil {
@@ -804,8 +804,17 @@ func writeEvidence(c Check, m *Merged, tier string, seed int64, wall float64, nv
 		"violations":  nviol,
 	}
 	b, _ := json.MarshalIndent(ev, "", " ")
-	os.MkdirAll(filepath.Join(Root, "evidence"), 0o755)
-	os.WriteFile(filepath.Join(Root, "evidence", c.ID()+".json"), b, 0o644)
+	os.MkdirAll(evidenceDir(), 0o755)
+	os.WriteFile(filepath.Join(evidenceDir(), c.ID()+".json"), b, 0o644)
+}
+
+// evidenceDir is /verif/evidence; runs against a deliberately broken tree (seedtest.sh, selftest.sh) set
+// VERIF_EVIDENCE_DIR so that they never overwrite the evidence of the unchanged tree.
+func evidenceDir() string {
+	if d := os.Getenv("VERIF_EVIDENCE_DIR"); d != "" {
+		return d
+	}
+	return filepath.Join(Root, "evidence")
 }
 
 // NewRecForTest creates a record for unit tests of checks.
